@@ -22,6 +22,11 @@ type writeLog struct {
 	mark  int                // number of SMT declarations when the dry run started
 }
 
+// any: the dry run wrote something (a variable of the enclosing function, the heap, a package-level variable, a ghost)
+func (l *writeLog) any() bool {
+	return l != nil && (len(l.vars) > 0 || len(l.heaps) > 0 || len(l.globs) > 0 || l.ghosts || len(l.whole) > 0)
+}
+
 func (c *FnCtx) execBlock(st *State, stmts []ast.Stmt) []Out {
 	cur := []*State{st}
 	var outs []Out
